@@ -362,10 +362,13 @@ theorem typed_init (sch : Schema) : Typed sch init := fun i x y h => by simp [in
 
 theorem relate_typed {sch : Schema} {s : State} (ht : Typed sch s) (x y : Inst) (r p : String) :
     Typed sch (relate sch s x y r p).1 := by
+  by_cases hlv : live s x ∧ live s y
+  case neg => rw [(relate_not_live_fst hlv r p).1]; exact ht
   have hf := relate_frame sch s x y r p
   intro j z w hm
   rw [hf.2.1]
-  unfold relate at hm
+  rw [relate_of_live hlv.1 hlv.2] at hm
+  unfold relateCore at hm
   split at hm
   · exact ht j z w hm
   · rename_i i d hfl
@@ -420,8 +423,9 @@ end Pyx.Meta
 
 namespace Pyx.Meta
 
-/-- the domain of the statement: relate is applied to live instances (use-after-delete is excluded);
-    delete may be applied to anything (a dead instance is rejected) -/
+/-- FORMER domain of the statements (relate applied to live instances only).  Since `relate` itself rejects an instance
+    that is not in its pool, the invariants hold for EVERY history (`step_allInv'`, `run_allInv_any`); `OpOk` / `Dom`
+    remain for the statements that still name them. -/
 def OpOk (s : State) : Op → Prop
   | .relate x y _ _ => live s x ∧ live s y
   | _ => True
@@ -439,7 +443,8 @@ structure AllInv (sch : Schema) (s : State) : Prop where
 theorem allInv_init (sch : Schema) : AllInv sch init :=
   ⟨inv_init sch, typed_init sch, liveOnly_init, poolInv_init⟩
 
-theorem step_allInv {sch : Schema} (hok : SchemaOk sch) {s : State} (h : AllInv sch s) (op : Op) (hop : OpOk s op) :
+/-- every operation, applied to ANY arguments, keeps all invariants -/
+theorem step_allInv' {sch : Schema} (hok : SchemaOk sch) {s : State} (h : AllInv sch s) (op : Op) :
     AllInv sch (step sch s op).1 := by
   refine ⟨step_inv h.inv op, ?_, ?_, step_poolInv h.pool op⟩
   · cases op with
@@ -449,12 +454,21 @@ theorem step_allInv {sch : Schema} (hok : SchemaOk sch) {s : State} (h : AllInv 
     | delete x => exact delete_typed h.typed x
   · cases op with
     | new k hid => exact new_liveOnly h.pool h.liveOnly k hid
-    | relate x y r p => exact relate_liveOnly h.liveOnly hop.1 hop.2
+    | relate x y r p => exact relate_liveOnly h.liveOnly
     | unrelate x y r p => exact unrelate_liveOnly h.liveOnly x y r p
     | delete x =>
       by_cases hx : live s x
       · exact (delete_liveOnly hok h.inv h.typed h.liveOnly h.pool hx).2
       · simp only [step]; rw [delete_dead_rejected sch s x hx]; exact h.liveOnly
+
+theorem step_allInv {sch : Schema} (hok : SchemaOk sch) {s : State} (h : AllInv sch s) (op : Op) (_hop : OpOk s op) :
+    AllInv sch (step sch s op).1 := step_allInv' hok h op
+
+/-- every history keeps all invariants -/
+theorem run_allInv_any {sch : Schema} (hok : SchemaOk sch) : ∀ (ops : List Op) (s : State), AllInv sch s →
+    AllInv sch (ops.foldl (fun s op => (step sch s op).1) s)
+  | [], s, h => h
+  | op :: ops, s, h => run_allInv_any hok ops _ (step_allInv' hok h op)
 
 theorem run_allInv_from {sch : Schema} (hok : SchemaOk sch) : ∀ (ops : List Op) (s : State), AllInv sch s → Dom sch s ops →
     AllInv sch (ops.foldl (fun s op => (step sch s op).1) s)
